@@ -6,7 +6,7 @@ from vlib import core
 
 WRAP = "-Wl,--wrap=tls_record_send,--wrap=tls_record_recv,--wrap=sm2_do_ecdh,--wrap=tls_pre_master_secret_generate,--wrap=tls_record_set_handshake_certificate,--wrap=hkdf_expand"
 PROTOS = ["tlcp", "tls12", "tls13"]
-DEFECTS = ["untrusted-root", "expired", "not-yet-valid", "issuer-not-ca", "bad-cert-sig", "key-mismatch"]
+DEFECTS = ["untrusted-root", "expired", "not-yet-valid", "issuer-not-ca", "bad-cert-sig", "cert-other-sigalg", "key-mismatch"]
 
 
 def fields(line):
@@ -78,6 +78,10 @@ def run(ctx):
             for d in ds:
                 for s in seeds:
                     cases.append(("auth %s %s %s %d" % (p, role, d, s), "auth:%s:%s-verifies:%s" % (p, role, d), role, d))
+                if role == "client":
+                    # the same row with client authentication requested as well (the client then walks the
+                    # CertificateRequest branch before it checks the server)
+                    cases.append(("auth %s %s %s %d 1" % (p, role, d, seeds[0]), "auth:%s:client-verifies(mutual):%s" % (p, d), role, d))
     outs, _ = core.run_lines(exe, [c[0] for c in cases], shards=12)
     for (line, cell, role, d), out in zip(cases, outs):
         ctx.cov["evaluations"] += 1
@@ -126,5 +130,5 @@ def finish(ctx):
         "rows 'key-mismatch' = wrong-key ServerKeyExchange signature / CertificateVerify (right certificate, other private key); 'leaf-swapped' = another valid leaf of the same CA with the original key; 'untrusted-root' on the server side = client chain valid but not under the server's client-CA anchors",
     ]
     return ctx.finish(level="proof",
-                      rule="3 protocols x {client verifies server, server verifies client} x {valid (control), untrusted root, expired, not yet valid (interposed clock), issuer not a CA, corrupted certificate signature, certificate/private-key mismatch (= wrong-key signature / CertificateVerify), leaf swapped for another valid leaf, TLCP encryption-key mismatch, TLCP encryption certificate from another CA, no client certificate, empty client Certificate message} x seeds; oracle: the verifying endpoint's handshake return is not 1",
+                      rule="3 protocols x {client verifies server, server verifies client} x {valid (control), untrusted root, expired, not yet valid (interposed clock), issuer not a CA, corrupted certificate signature, leaf with foreign signatureAlgorithm fields, certificate/private-key mismatch (= wrong-key signature / CertificateVerify), leaf swapped for another valid leaf, TLCP encryption-key mismatch, TLCP encryption certificate from another CA, no client certificate, empty client Certificate message} x seeds; oracle: the verifying endpoint's handshake return is not 1",
                       trusted=core.TRUSTED_COMMON + ["credential generation with the library's X.509 functions (props/C08/tls_peer.h)", "Coq files: Tls/Handshake.v HandshakeProofs.v"])
